@@ -60,6 +60,14 @@ def main():
         raise common.MachineryError("only %d DATA spellings were converted" % len(cases))
     # gating canary: the same number with its last decimal dropped must be rejected
     cases.append({"id": len(cases) + 1, "src": gen.text_bytes("1.25E-5"), "tgt": gen.text_bytes("0.000013"), "found": 1, "what": "canary"})
+    # (M) the normal form itself is model-checked first: 8 160 decimal texts, eight invariants (independence of the spelling)
+    empty = os.path.join(wd, "empty.json")
+    with open(empty, "w") as f:
+        f.write("[]")
+    rm = rep.tlc(common.run_tlc("MC_DataText", cfg="MC_DataText.cfg", env={"CASES": empty}, wd=wd, dump=False))
+    if "Error" in rm.out or rm.distinct < 8000:
+        raise common.MachineryError("MC_DataText did not complete:\n" + rm.out[-1500:])
+    rep.count("mc_datatext_states", rm.distinct)
     vds = common.judge("DataText", cases, rep, wd)
     if vds[-1]["ok"]:
         raise common.MachineryError("canary accepted: %r" % vds[-1])
